@@ -7,6 +7,7 @@ predicates P1-P4 (DESIGN 6) are judged against a reference instance that never
 snapshots, and the recorded projections are validated by TLC (FSMTrace.tla)
 with the property invariants evaluated on every recorded state.
 """
+import concurrent.futures
 import json
 import os
 import random
@@ -80,6 +81,40 @@ def replay_file(ctx, eng, path):
     ctx.log("replay: %d steps, %d violations" % (steps, nviol))
 
 
+def real_raft(ctx, eng, num):
+    t = time.time()
+    d = ctx.sub("realraft")
+    outp = os.path.join(d, "raft.ndjson")
+    rd = eng.scratch("realraft-rd")
+    env = {"VERIF_FSM_RAFT_N": num, "VERIF_FSM_OUT": outp, "VERIF_FSM_DIR": rd, "TMPDIR": eng.scratch("realraft-tmp")}
+    rc, out = ctx.run_bin([eng.binary, "-test.run", "^TestVerifFSMRealRaft$", "-test.count=1", "-test.timeout", "1500s"],
+                          env=env, timeout=1600, cwd=d)
+    if rc != 0 or not os.path.exists(outp):
+        raise vlib.Inconclusive("real-raft driver died (rc=%s):\n%s" % (rc, out[-2000:]))
+    res = vlib.read_ndjson(outp)
+    if len(res) != num:
+        raise vlib.Inconclusive("real-raft driver: %d of %d scenarios" % (len(res), num))
+    bad = 0
+    for r in res:
+        if r.get("err"):
+            raise vlib.Inconclusive("real-raft scenario %d: %s" % (r["scenario"], r["err"]))
+        if not r["ok"]:
+            bad += 1
+            F.judge_all.sigs["raft"] = F.judge_all.sigs.get("raft", 0) + 1
+            if F.judge_all.sigs["raft"] <= 2:
+                ctx.violation("P4-real-raft-state-differs-after-" + r["where"],
+                              "single-node hashicorp/raft over the real FSM: after %s the state differs from the replay of the applied "
+                              "commands: %s [scenario %d, steps %s]" % (r["where"], (r.get("diff") or "")[:300], r["scenario"], " ".join(r["steps"])),
+                              {"real_raft_scenario": r["scenario"], "seed": r["seed"], "steps": r["steps"]})
+            else:
+                ctx.add("violating_schedules_not_listed", 1)
+    ctx.cov["real_raft"] = {"scenarios": num, "ok": num - bad, "snapshots": sum(r["snaps"] for r in res),
+                            "snapshot_errors": sum(r["snap_errs"] for r in res), "restarts": sum(r["restarts"] for r in res)}
+    ctx.add("traces_validated_against_impl", num)
+    ctx.log("real raft: %d scenarios, %d differ, %d snapshots, %d restarts, %.1fs" % (num, bad, ctx.cov["real_raft"]["snapshots"],
+                                                                                   ctx.cov["real_raft"]["restarts"], time.time() - t))
+
+
 def selftest(ctx, eng, scheds, events):
     """The binding binds: a corrupted record / a dropped event must be noticed by the trace
     validation; a reference that is fed a different log must be noticed by the differential."""
@@ -98,6 +133,9 @@ def selftest(ctx, eng, scheds, events):
             break
     if not pick:
         raise vlib.Inconclusive("selftest: no suitable recorded trace")
+    if pick[0][0]["name"] in F.judge_all.flagged:
+        ctx.note("binding selftest skipped: the tree under test violates the property on the sample trace")
+        return
     (sched, alog, evs), k = pick
     saved_v, saved_d = ctx.violation, ctx.drift
     hits = []
@@ -176,17 +214,22 @@ def _run(ctx):
             ctx.log("FSM_big: %d distinct states" % r.distinct)
     eng.background("exhaustive", exhaustive)
 
-    # 2. what TLC says about the pinned behaviour (candidates only; the replay decides)
-    cex = {}
-    for cfg in ("FSM_asis_f2.cfg", "FSM_asis_f3.cfg"):
-        inv, hist = eng.counterexample(cfg)
-        if hist:
-            cex[cfg] = hist
-    ctx.cov["asis_counterexamples"] = {k: [h["a"] for h in v] for k, v in cex.items()}
+    # 2. what TLC says about the pinned behaviour (candidates only; the replay decides) and
+    #    seeded simulation over the full alphabet -- both produced in the background
+    def asis():
+        cex = {}
+        for cfg in ("FSM_asis_f2.cfg", "FSM_asis_f3.cfg"):
+            inv, hist = eng.counterexample(cfg)
+            if hist:
+                cex[cfg] = hist
+        ctx.cov["asis_counterexamples"] = {k: [h["a"] for h in v] for k, v in cex.items()}
+        return cex
+    pool = concurrent.futures.ThreadPoolExecutor(max_workers=2)
+    f_cex = pool.submit(asis)
+    f_sim = pool.submit(eng.simulate, "FSM_sim.cfg", 40 if quick else 600, 36, 300 if quick else 2400)
 
-    # 3. replay on the real FSM: known shapes + TLC counterexamples, both encodings
-    shapes = known_shapes()
-    behs = list(shapes.values()) + list(cex.values())
+    # 3. replay on the real FSM: known shapes, both encodings
+    behs = list(known_shapes().values())
     eng.replay_behaviours(behs + behs, "PreludeSess", "shape", proto_of=lambda k: k < len(behs))
 
     # 4. replay every transition of the small graphs
@@ -197,9 +240,11 @@ def _run(ctx):
     ctx.cov["edges_expiration"] = nedges
     eng.replay_behaviours(behs, "PreludeSess", "expedge", limit=500 if quick else None, nproc=4 if quick else 6)
 
-    # 5. seeded simulation over the full alphabet, longer logs
-    behs = eng.simulate("FSM_sim.cfg", num=40 if quick else 2000, depth=36, timeout=300 if quick else 1500)
-    eng.replay_behaviours(behs, "PreludeSess", "sim", nproc=4 if quick else 6)
+    # 5. TLC's counterexamples for the pinned behaviour and the simulated behaviours
+    behs = list(f_cex.result().values())
+    eng.replay_behaviours(behs + behs, "PreludeSess", "asis", proto_of=lambda k: k < len(behs))
+    eng.replay_behaviours(f_sim.result(), "PreludeSess", "sim", nproc=4 if quick else 6)
+    pool.shutdown()
 
     # 6. seeded random schedules over longer realistic logs (differential oracle only)
     rng = random.Random(ctx.seed)
@@ -213,6 +258,9 @@ def _run(ctx):
     ctx.log("random: %d schedules, %d steps in %.1fs, %d violating" % (len(rs), steps, time.time() - t, nviol))
     ctx.sample({"kind": "random", "log": [e.get("data", "raft-internal") for e in rs[0]["log"]],
                 "steps": [st["a"] for st in rs[0]["steps"]]})
+
+    # 6b. the same through a REAL single-node hashicorp/raft (raft assigns the indices, calls Snapshot()/Restore())
+    real_raft(ctx, eng, 10 if quick else 300)
 
     # 7. the binding binds
     selftest(ctx, eng, scheds2, ev2)
